@@ -12,6 +12,7 @@ expr! / munch_expr: `->` -> Expr::Implies(left, right), `<->` -> Expr::Iff(left,
 vars!: each domain keyword maps to its VariableType constructor with ($min, $max) in that order; array forms call
 add_vars(stringify!(name), count, ..), scalar forms add_var(stringify!(name), ..);
 every arm continues with the rest of the declarations; named constraint: `name :` sets c.name from stringify!(name)."""
+import os
 import re
 
 PUNCT3 = ["<<=", ">>=", "...", "..="]
@@ -208,7 +209,9 @@ def dispatch_token(lits):
     return (acc[0][1] if acc else None), "".join(mid), [r[1] for r in rest]
 
 
-def check(F, R, src_path="/repo/packages/rooc/src/builder/macros.rs"):
+def check(F, R, src_path=None):
+    import facts
+    src_path = src_path or os.path.join(facts.CRATE_DIR, "src", "builder", "macros.rs")
     where = "packages/rooc/src/builder/macros.rs"
     try:
         src = open(src_path).read()
